@@ -134,4 +134,18 @@ theorem tie_restore_remainder_signed :
       ("Plugin.RestoreReservation" ∈ C06.subtractSignedCallers ∧ "Plugin.RestoreReservation" ∉ C06.subtractClampedCallers) := by
   decide
 
+/-- round 6: the dry-run steps of the model are the ones the plugin makes - Plugin.RemovePod is the only caller of
+    `Accumulate` (removePodDry), Plugin.AddPod the only caller of `Subtract` (addPodDry). -/
+theorem tie_dryrun_steps :
+    C06.preemptAccumulateCallers = ["Plugin.RemovePod"] ∧ C06.preemptSubtractCallers = ["Plugin.AddPod"] := by
+  decide
+
+/-- round 6: in `Subtract` (and in its mirror `Accumulate`) the CPU argument and the field it is cancelled against are
+    each overwritten once, and neither update reads the other one's NEW value: both are computed from the overlap
+    taken before either write (`PreAlloc.subtract` / `PreAlloc.accumulate`; `subtract_reordered_counterexample` is the
+    shape with a stale read). -/
+theorem tie_dryrun_overlap_taken_once :
+    C06.preemptSubtractStaleReads = (2, 0) ∧ C06.preemptAccumulateStaleReads = (2, 0) := by
+  decide
+
 end KoordVerif.C06
